@@ -50,13 +50,15 @@ def outcome_of_exc(e):
 
 def spellings(ureg):
     """every key of the unit table of a FRESH registry (no lazily added prefixed names yet)"""
-    return [k for k in ureg._units.keys()]
+    lazy = getattr(ureg, "_lazy_units", ())     # prefixed names registered while the registry was built are not spellings
+    return [k for k in ureg._units.keys() if k not in lazy]
 
 
 def canonical_names(ureg):
     seen, out = set(), []
+    lazy = getattr(ureg, "_lazy_units", ())
     for d in ureg._units.values():
-        if d.name not in seen:
+        if d.name not in seen and d.name not in lazy:
             seen.add(d.name)
             out.append(d.name)
     return out
@@ -133,10 +135,15 @@ def gen_definition_lines(rng, n_units=18):
     lines.append("plain = []")
     names = list(base)
     defs = []
+    fwd_targets = set()
     for j in range(n_units):
         nm = f"u{j}x"
         k = rng.randint(1, 3)
-        refs = rng.sample(names + ([f"u{j + 1}x"] if j + 1 < n_units and rng.random() < 0.15 else []), min(k, len(names)))
+        # a unit that is the target of a forward reference may only refer to base units (keeps the graph acyclic)
+        pool = list(base) if j in fwd_targets else names + ([f"u{j + 1}x"] if j + 1 < n_units and rng.random() < 0.15 else [])
+        refs = rng.sample(pool, min(k, len(pool)))
+        if f"u{j + 1}x" in refs:
+            fwd_targets.add(j + 1)
         fac = rng.choice(["2", "0.5", "1.25", "12", "3e2", "1e-3", "7", "0.3048", "1/3", "2**3", "5/4"])
         rhs = fac
         for r in refs:
@@ -181,7 +188,7 @@ def load_generated(lines, nit=F):
 
 def gen_header(raw, ident="greg"):
     return ("From PintV Require Import Model.UC Model.Eval Model.Registry Model.RegistryRun.\nOpen Scope string_scope.\n"
-            f"Definition {ident} : reg := match load {raw} with Ok r => r | Err _ => empty_reg end.\n"
+            f"Definition {ident} : reg := match elab {raw} with Ok r => r | Err _ => empty_reg end.\n"
             f"Definition ok (c : regcase) : bool := reg_ok {ident} c.\n")
 
 
